@@ -191,7 +191,6 @@ Proof.
         [apply numeq_with_cut|apply numeq_with_blk|discriminate]. }
   assert (HT : stepT f eX eY = [eX'; eY'] -> guard_cut eX' eY' G GY /\ b_rq (fst eX') = b_rq (fst eX)).
   { unfold stepT. intros E1.
-    assert (NX : numeq eX (advance_one (with_blk (with_cut eX eY))) \/ True) by (right; exact I).
     (* X is consumed as well; its copy stays strong *)
     set (dX := with_blk (with_cut eX eY)) in *.
     assert (NdX : numeq eX dX) by (eapply numeq_trans; [apply numeq_with_cut|apply numeq_with_blk]).
